@@ -1433,7 +1433,7 @@ func verifyScenarios(r *mc.Run) {
 
 func Replay(scenario string, raw json.RawMessage) []*mc.Violation {
 	var in In
-	if err := json.Unmarshal(raw, &in); err != nil {
+	if err := mc.UnmarshalInput(raw, &in); err != nil {
 		return nil
 	}
 	var v *mc.Violation
